@@ -422,6 +422,22 @@ def b_next_layer(h, shape):
     return inp, lambda: h.call(sxh.F_LAYER, "compute_next_layer", [qs, sib, params])
 
 
+def standalone_entries():
+    """fri_commit / queries_to_points taken alone under `config accepted by validate` only: used as the informational variants of the
+    chained entries in c18deep (a panic here that the caller in StarkProof::verify excludes is listed, not counted)"""
+    s3 = small(3)
+    big = lambda lnc: {"steps": [0] + [4] * 11, "bound": 15, "lnc": lnc}
+    cfg_shapes = [(1, 2), (2, 3), {"steps": [0, 1], "bound": 0, "lnc": 1}, big(5), big(6), {"steps": [0] + [4] * 14, "bound": 15, "lnc": 16}]
+    E = []
+    E.append(Entry("queries_to_points", [sxh.F_QUERIES + "::queries_to_points"], [((1, 2), 1), ((1, 2), 2), (cfg_shapes[2], 2), (big(5), 1), (big(6), 1), (cfg_shapes[-1], 1)], b_queries_to_points,
+                   pre="StarkConfig::validate Ok; domains from the config; queries < eval_domain_size (as produced by generate_queries)", int_bound=16,
+                   bounds="1..2 queries; symbolic 2-layer configs and concrete geometries with log_eval_domain_size in {2, 64, 65, 87}"))
+    E.append(Entry("fri_commit", [sxh.F_FRI + "::fri_commit", sxh.F_FRI + "::fri_commit_rounds"], list(itertools.product(s3, s3, s3, s3)), b_fri_commit,
+                   pre="fri::Config::validate(config, log_n_cosets, nvf) is Ok", int_bound=8, budget_s=240,
+                   bounds="config.inner_layers, config.fri_step_sizes, unsent inner_layers, last_layer_coefficients lengths in 0..=3 independently"))
+    return dict((e.name, e) for e in E)
+
+
 def entries(tier):
     s3 = small(3)
     E = []
@@ -438,17 +454,11 @@ def entries(tier):
     E.append(Entry("generate_queries", [sxh.F_QUERIES + "::generate_queries"], [cfg_shapes[0], cfg_shapes[2], cfg_shapes[-1]], b_generate_queries,
                    pre="StarkConfig::validate Ok; query_upper_bound = StarkDomains::new(..).eval_domain_size", int_bound=16,
                    bounds="n_queries <= 3 (of the validated 1..=48); transcript state symbolic"))
-    E.append(Entry("queries_to_points", [sxh.F_QUERIES + "::queries_to_points"], [((1, 2), 1), ((1, 2), 2), (cfg_shapes[2], 2), (big(5), 1), (big(6), 1), (cfg_shapes[-1], 1)], b_queries_to_points,
-                   pre="StarkConfig::validate Ok; domains from the config; queries < eval_domain_size (as produced by generate_queries)", int_bound=16,
-                   bounds="1..2 queries; symbolic 2-layer configs and concrete geometries with log_eval_domain_size in {2, 64, 65, 87}"))
     E.append(Entry("verify_pow", [sxh.F_POW + "::verify_pow"], [True], b_verify_pow, pre="pow::Config::validate Ok (20 <= n_bits <= 50)",
                    bounds="digest, nonce symbolic; n_bits symbolic u8",
                    info=Entry("verify_pow", [sxh.F_POW + "::verify_pow"], [False], b_verify_pow, pre="none (n_bits full u8)")))
     E.append(Entry("pow_commit", [sxh.F_POW + "::UnsentCommitment::commit"], [None], b_pow_commit, pre="pow::Config::validate Ok",
                    bounds="transcript, nonce, n_bits symbolic"))
-    E.append(Entry("fri_commit", [sxh.F_FRI + "::fri_commit", sxh.F_FRI + "::fri_commit_rounds"], list(itertools.product(s3, s3, s3, s3)), b_fri_commit,
-                   pre="fri::Config::validate(config, log_n_cosets, nvf) is Ok", int_bound=8, budget_s=240,
-                   bounds="config.inner_layers, config.fri_step_sizes, unsent inner_layers, last_layer_coefficients lengths in 0..=3 independently"))
     E.append(Entry("verify_oods", [sxh.F_OODS + "::verify_oods"], list(range(0, 8)), b_verify_oods, toy=True, abstract=toy_abstract, types=toy_types,
                    pre="none (oods_values come straight from the proof)", bounds="ToyLayout (MASK_SIZE 3, evaluators uninterpreted); oods.len() in 0..=7"))
     E.append(Entry("get_public_memory_product_ratio", [sxh.F_PUBMEM + "::get_public_memory_product_ratio"], list(itertools.product(s3, small(2))),
